@@ -84,6 +84,7 @@ struct vm_state
     struct vm_store_cfg store[VM_NSTORE];
     struct vm_dev dev[VM_NCAM + VM_NSTORE]; // cams then stores
     int driver_inits, driver_shutdowns;
+    int fail_open[VM_NCAM + VM_NSTORE]; // the next open of this device is refused (busy / unplugged); counts down
     struct { uint8_t dev, call; int16_t arg; } log[VM_MAXCALLS];
     int nlog;
     int monitor;   // protocol monitor on (violations -> vs_fail)
